@@ -6,6 +6,8 @@ import (
 	"bytes"
 	"encoding/json"
 	"fmt"
+	"runtime"
+	"strings"
 	"sync"
 	"testing"
 
@@ -20,6 +22,23 @@ type C18Pipe struct {
 	Cfg      gen.Config `json:"cfg"`
 	Data     gen.Recipe `json:"data"`
 	ReadJobs uint       `json:"read_jobs"`
+	// Verbose > 0: Writer and Reader are built through the WithCtx constructors with ctx["verbosity"] = Verbose
+	// and an event listener attached (the way the command-line tool drives them with -v 3 and above)
+	Verbose uint `json:"verbose,omitempty"`
+}
+
+func (p C18Pipe) compress(data []byte, cfg gen.Config) ([]byte, error) {
+	if p.Verbose == 0 {
+		return Compress(data, cfg, nil)
+	}
+	return CompressWith(data, cfg, nil, map[string]any{"verbosity": p.Verbose}, newEvRec())
+}
+
+func (p C18Pipe) decompress(stream []byte, cfg gen.Config, jobs uint) ([]byte, error) {
+	if p.Verbose == 0 {
+		return Decompress(stream, cfg, jobs, nil)
+	}
+	return DecompressWith(stream, cfg, jobs, nil, map[string]any{"verbosity": p.Verbose}, newEvRec())
 }
 
 // C18Case: K pipelines run concurrently, each on its own goroutine.
@@ -27,6 +46,10 @@ type C18Case struct {
 	Pipes   []C18Pipe `json:"pipes"`
 	Perturb uint64    `json:"perturb"`
 	Level   int       `json:"level"`
+	// Procs > 0: the concurrent phase runs with runtime.GOMAXPROCS(Procs). With 1, goroutines run one after the
+	// other, which puts two conflicting unsynchronised accesses of "neighbouring" goroutines close together in
+	// the race detector's bounded history (far-apart conflicting accesses are dropped by the detector).
+	Procs int `json:"procs,omitempty"`
 }
 
 type c18Out struct {
@@ -47,12 +70,12 @@ func runC18(r *vrt.Run, c C18Case) (o c18Out) {
 		d := p.Data.Expand()
 		cfg := p.Cfg
 		cfg.Jobs = 1
-		st, err := Compress(d, cfg, nil)
+		st, err := p.compress(d, cfg)
 		if err != nil {
 			solos[i].skip = true
 			continue
 		}
-		out, err := Decompress(st, cfg, 1, nil)
+		out, err := p.decompress(st, cfg, 1)
 		if err != nil || !bytes.Equal(out, d) {
 			solos[i].skip = true // not an interference matter (C01)
 			continue
@@ -62,6 +85,9 @@ func runC18(r *vrt.Run, c C18Case) (o c18Out) {
 	msgs := make([]string, len(c.Pipes))
 	p := newPerturb(c.Perturb, c.Level)
 	withPerturb(p, func() {
+		if c.Procs > 0 {
+			defer runtime.GOMAXPROCS(runtime.GOMAXPROCS(c.Procs))
+		}
 		var wg sync.WaitGroup
 		for i := range c.Pipes {
 			if solos[i].skip {
@@ -71,7 +97,7 @@ func runC18(r *vrt.Run, c C18Case) (o c18Out) {
 			go func(i int) {
 				defer wg.Done()
 				pp := c.Pipes[i]
-				st, err := Compress(solos[i].data, pp.Cfg, nil)
+				st, err := pp.compress(solos[i].data, pp.Cfg)
 				if err != nil {
 					msgs[i] = fmt.Sprintf("pipeline %d (%s): compression failed when run next to the others: %v", i, pp.Cfg.String(), err)
 					return
@@ -80,7 +106,7 @@ func runC18(r *vrt.Run, c C18Case) (o c18Out) {
 					msgs[i] = fmt.Sprintf("pipeline %d (%s): compressed bytes differ from the run alone (first difference at %d)", i, pp.Cfg.String(), firstDiff(st, solos[i].stream))
 					return
 				}
-				out, err := Decompress(st, pp.Cfg, max(pp.ReadJobs, 1), nil)
+				out, err := pp.decompress(st, pp.Cfg, max(pp.ReadJobs, 1))
 				if err != nil {
 					msgs[i] = fmt.Sprintf("pipeline %d (%s): decompression failed when run next to the others: %v", i, pp.Cfg.String(), err)
 					return
@@ -105,7 +131,13 @@ func runC18(r *vrt.Run, c C18Case) (o c18Out) {
 			o.msg = m
 		}
 	}
-	o.nontrivial = active >= 2 && multi && p.MaxLive >= 2
+	helpers := false
+	for i, pp := range c.Pipes {
+		if !solos[i].skip && pp.Cfg.BlockSize > 4<<20 && pp.Data.Len > 4<<20 && pp.Cfg.Hint > 0 && pp.ReadJobs >= 2 && strings.Contains(pp.Cfg.Transform, "BWT") {
+			helpers = true // inverse BWT ran with helper goroutines
+		}
+	}
+	o.nontrivial = (active >= 2 && multi && p.MaxLive >= 2) || helpers
 	return
 }
 
@@ -118,6 +150,13 @@ func c18Eval(r *vrt.Run, c C18Case) c18Out {
 			seen["uses:"+n] = true
 		}
 		seen["uses-entropy:"+p.Cfg.Entropy] = true
+		if p.Verbose > 0 {
+			seen[fmt.Sprintf("listener+verbosity:%d", p.Verbose)] = true
+		}
+		seen["hint:"+p.Cfg.HintClass] = true
+	}
+	if c.Procs > 0 {
+		labels = append(labels, fmt.Sprintf("gomaxprocs:%d", c.Procs))
 	}
 	for k := range seen {
 		labels = append(labels, k)
@@ -126,7 +165,7 @@ func c18Eval(r *vrt.Run, c C18Case) c18Out {
 	if o.nontrivial && r.WantSample() {
 		var ps []string
 		for _, p := range c.Pipes {
-			ps = append(ps, fmt.Sprintf("%s | %s | rjobs=%d", p.Cfg.String(), p.Data.String(), p.ReadJobs))
+			ps = append(ps, fmt.Sprintf("%s | %s | rjobs=%d verbosity=%d", p.Cfg.String(), p.Data.String(), p.ReadJobs, p.Verbose))
 		}
 		r.Sample(map[string]any{"pipelines": ps, "perturb_level": c.Level, "max_tasks_alive": o.maxLive})
 	}
@@ -151,7 +190,14 @@ func drawC18(t *rapid.T, maxBlock int) C18Case {
 			p.Data.Kind = rapid.SampledFrom([]int{gen.KText, gen.KXML, gen.KUTF8, gen.KDNA, gen.KExeX86}).Draw(t, "kind")
 		}
 		p.Cfg.Hint, p.Cfg.HintClass = 0, "absent"
+		if rapid.Bool().Draw(t, "hint") {
+			// with the size in the header the reader knows the block count and hands spare jobs to the block tasks
+			p.Cfg.Hint, p.Cfg.HintClass = int64(ln), "exact"
+		}
 		p.ReadJobs = gen.DrawJobs(t, 16, "readJobs")
+		if rapid.Bool().Draw(t, "listen") {
+			p.Verbose = rapid.SampledFrom([]uint{1, 3, 5, 6}).Draw(t, "verbose")
+		}
 		c.Pipes = append(c.Pipes, p)
 	}
 	c.Perturb = rapid.Uint64Range(1, 1<<20).Draw(t, "perturb")
@@ -186,18 +232,25 @@ func TestC18(t *testing.T) {
 			r.Violation(t, "interference", c, "%s", o.msg)
 		}
 	})
-	if r.Thorough() {
-		// BWT above 4 MiB with several jobs: the inverse spawns helper goroutines
-		r.Rapid(t, "bwt-helpers", 0, 16, func(t *rapid.T) {
-			var c C18Case
-			for i := 0; i < 2; i++ {
-				c.Pipes = append(c.Pipes, C18Pipe{Cfg: gen.Config{Transform: "BWT", Entropy: "NONE", BlockSize: 8 << 20, Jobs: uint(rapid.IntRange(2, 8).Draw(t, "jobs")), Checksum: 32, HintClass: "absent"},
-					Data: gen.Recipe{Kind: gen.KText, Len: 4<<20 + rapid.IntRange(1, 1<<20).Draw(t, "len"), Seed: uint64(i)}, ReadJobs: uint(rapid.IntRange(2, 8).Draw(t, "rjobs"))})
-			}
-			c.Perturb, c.Level = 5, 1
-			if o := c18Eval(r, c); o.msg != "" {
-				r.Violation(t, "interference", c, "%s", o.msg)
-			}
-		})
-	}
+	// BWT above 4 MiB: the inverse transform spawns helper goroutines when the block task owns several jobs, which
+	// happens only when the header carries the size (block count known) and there are more reader jobs than
+	// blocks. Job counts that split the 8 chunks unevenly (3, 5, 6, 7) and odd chunk sizes are included, and one
+	// pipeline in two runs with GOMAXPROCS(1) (see C18Case.Procs).
+	r.Rapid(t, "bwt-helpers", 2, 48, func(t *rapid.T) {
+		var c C18Case
+		np := rapid.IntRange(1, 2).Draw(t, "np")
+		for i := 0; i < np; i++ {
+			ln := 4<<20 + rapid.IntRange(1, 1<<19).Draw(t, "len")
+			c.Pipes = append(c.Pipes, C18Pipe{Cfg: gen.Config{Transform: rapid.SampledFrom([]string{"BWT", "BWT", "TEXT+BWT"}).Draw(t, "tr"), Entropy: "NONE", BlockSize: 8 << 20,
+				Jobs: uint(rapid.IntRange(1, 8).Draw(t, "jobs")), Checksum: 32, Hint: int64(ln), HintClass: "exact"},
+				Data: gen.Recipe{Kind: gen.KText, Len: ln, Seed: uint64(i)}, ReadJobs: uint(rapid.SampledFrom([]int{2, 3, 4, 5, 6, 7, 8, 16}).Draw(t, "rjobs"))})
+		}
+		c.Perturb, c.Level = 5, rapid.IntRange(0, 1).Draw(t, "level")
+		if rapid.Bool().Draw(t, "seq") {
+			c.Procs = 1
+		}
+		if o := c18Eval(r, c); o.msg != "" {
+			r.Violation(t, "interference", c, "%s", o.msg)
+		}
+	})
 }
